@@ -11,7 +11,7 @@
    `delete-packet` faults exercise the whole path). *)
 From Coq Require Import ZArith List Bool.
 From Coq Require String.
-Require Import PyLib SuiteTypes SuiteParser Crypto KeySchedule Packet Reassembly Decryptor TlsSession Main C04P C03P QuicDemuxP QuicTotalP TlsTotalP OutputBuilder BuilderP BuilderTotalP ReasmP ReorderP.
+Require Import PyLib SuiteTypes SuiteParser Crypto KeySchedule Packet Reassembly Decryptor TlsSession Main C04P C03P QuicDemuxP QuicTotalP TlsTotalP OutputBuilder BuilderP BuilderTotalP ReasmP ReorderP SessionP C05P LossP.
 Import ListNotations.
 Open Scope Z_scope.
 
@@ -127,3 +127,21 @@ Theorem C03_loss_leaves_a_prefix : forall isn chunks dummy R order,
   exists n' buf recs R2, feed None [] (map (fun i => nth i chunks dummy) order) = Ok (n', buf, recs) /\ R = map r_raw recs ++ R2.
 Proof. intros isn chunks dummy R order Ho Hl HR Hd Hnd Hb Hf. exact (lossy_delivers_prefix chunks isn Ho Hl dummy R order HR Hd Hnd Hb Hf). Qed.
 Print Assumptions C03_loss_leaves_a_prefix.
+
+(* the same, for the Session object from handle_packet to the record handler (Session.handle_packet's duplicate memory, the packet
+   buffer, decrypt()'s reassembly): a session whose direction d is untouched so far receives any packets whose direction-d part is
+   ANY sequence of arrivals drawn from that endpoint's segments -- lost, repeated, reordered, the first one first; the other
+   direction's packets are arbitrary.  Then what decrypt() hands to handle_tls_record for direction d (side d tr; the traffic
+   collected is the handler's output on tr) is a beginning of the records the endpoint sent. *)
+Theorem C03_session_loss : forall C tbl parts keylog s ps core st' (d : bool) isn chunks dummy R arr,
+  in_order isn chunks -> len (data chunks) < 2147483648 -> Forall wf_rec R -> data chunks = concat R ->
+  Forall (fun i => (i < length chunks)%nat) arr -> match arr with [] => True | j :: _ => j = 0%nat end ->
+  seen s d = [] -> dirs s d (ts_packet_buffer s) = [] ->
+  dirs s d ps = map (fun i => nth i chunks dummy) arr ->
+  let s' := fold_left session_handle_packet ps s in
+  get_tls_records C tbl parts keylog (ts_server_ip s') (ts_server_port s')
+    {| rs_server_pbuf := []; rs_client_pbuf := []; rs_server_next := None; rs_client_next := None; rs_core := core; rs_traffic := [] |}
+    (ts_packet_buffer s') = Ok st' ->
+  exists tr core' R2, handle_trace C tbl parts keylog core tr = Ok (core', rs_traffic st') /\ R = map r_raw (side d tr) ++ R2.
+Proof. exact session_loss_prefix. Qed.
+Print Assumptions C03_session_loss.
